@@ -44,6 +44,21 @@ Fixpoint invalid_quiet (neg:bool) (a:ast) (prev:N) (l:list (cop * (N * N))) (evs
       && invalid_quiet neg (astep neg a (aop_of o) r) cnt rest evs
   end.
 
+(* every frame goes out under the deadline that is current when it is written: the argument of
+   the latest SetWriteDeadline for message frames, its own deadline for WriteControl *)
+Fixpoint deadline_values (cur:N) (prev:N) (l:list (cop * N)) (evs:list tev) : bool :=
+  match l with
+  | [] => true
+  | (o, cnt) :: rest =>
+      let mine := firstn (N.to_nat (cnt - prev)) (skipn (N.to_nat prev) evs) in
+      let all_eq (d:N) := forallb (fun e => match e with TSetDL x | TSetDLFail x => x =? d | _ => true end) mine in
+      match o with
+      | COp (WSetDeadline d) => deadline_values d cnt rest evs
+      | COp (WControl _ _ dl) => all_eq dl && deadline_values cur cnt rest evs
+      | _ => all_eq cur && deadline_values cur cnt rest evs
+      end
+  end.
+
 Definition spec (k:wcase) (o:wobs) : option (N * tape) :=
   let wire := wire_of (wo_evs o) in
   let '(fs, t) := parse_frames wire in
@@ -53,6 +68,7 @@ Definition spec (k:wcase) (o:wobs) : option (N * tape) :=
   else if existsb is_transport (after_first_fail (wo_evs o)) then Some (70, [])      (* something was written after a failure *)
   else if negb (later_fail false (combine (wk_ops k) (wo_res o))) then Some (71, []) (* a later write reported success *)
   else if negb (deadlines_ok false (wo_evs o)) then Some (72, [])                     (* a Write without its deadline *)
+  else if negb (deadline_values 0 0 (combine (wk_ops k) (wo_cnt o)) (wo_evs o)) then Some (74, [])  (* a frame under a stale deadline *)
   else if negb (invalid_quiet (w_negotiated (wk_cfg k)) ast0 0 (combine (wk_ops k) (combine (wo_res o) (wo_cnt o))) (wo_evs o))
        then Some (73, [])                                                            (* an invalid request wrote something *)
   else match wire_events (map fst fs) with
